@@ -623,6 +623,12 @@ def edit_cases(arg):
         except Exception as ex:
             out.append({'src': src, 'edit': edit, 'op': op, 'field': pkind + '.' + fld, 'violations': [], 'changed': False,
                         'outcome': 'harness:' + type(ex).__name__ + ':' + str(ex)[:80], 'bad_spans': []})
+    import hashlib
+    for it in out:      # keep the parent process small: full texts only for items that will be reported
+        it['key'] = hashlib.blake2b((it['src'] + repr(it['edit'])).encode(), digest_size=8).hexdigest()
+        if not it['violations'] and not it.get('bad_spans'):
+            it.pop('after', None)
+            it['src'] = it['src'][:300]
     return out
 
 
